@@ -59,10 +59,9 @@ class BfsResult:
         for i in range(len(self.layers_hashes)):
             if not torch.all(self.layers_hashes[i] == other.layers_hashes[i]):
                 return False
-        if not self.has_edges_list_hashes():
-            if other.has_edges_list_hashes():
-                return False
-        else:
+        if self.has_edges_list_hashes() != other.has_edges_list_hashes():
+            return False
+        if self.has_edges_list_hashes():
             if self.edges_list_hashes.shape != other.edges_list_hashes.shape:  # type: ignore
                 return False
             if not torch.all(self.edges_list_hashes == other.edges_list_hashes):  # type: ignore
